@@ -69,6 +69,15 @@ func Body1210(d consts.ActiveSafetyType, termID, alarmID []byte, files []File) [
 	return b
 }
 
+// SetInfoType overwrites the information-type byte of a 0x1210 body built by Body1210 (0x00 = alarm files, 0x01 = re-upload).
+func SetInfoType(body []byte, files []File, v byte) {
+	n := 2
+	for _, f := range files {
+		n += 1 + len(f.Name) + 4
+	}
+	body[len(body)-n] = v
+}
+
 func Body1211(f File, typ byte) []byte {
 	b := append([]byte{byte(len(f.Name))}, f.Name...)
 	b = append(b, typ)
